@@ -7,7 +7,9 @@ Lean sequence of atomic set operations.
 Search: decisions against an independent statement of each documented bound; a refused event leaves no
 trace (not stored, not broadcast) and carries a reason; submissions that are in flight at the same time (same id claimed by
 different payloads included) each get the verdict of their own payload; during a refresh of an enforced allow list a
-concurrent reader never sees it empty; after the refresh the lists hold exactly the expected keys; a `validators` list with an
+concurrent reader never sees it empty; after the refresh the lists hold exactly the expected keys — also after the 2nd .. 5th refresh of
+ONE ListBuilder (as the relay's Periodic task runs it) while the query results change, with the instrumented set and with the real storage of
+both backends (the lists are replaceable events, the verdicts those of add_event); a `validators` list with an
 entry that names no validator (misspelt module, module whose import raises, missing attribute, non-callable, not a dotted path,
 scalar for list) either keeps get_validator / the storage of both backends from being constructed or refuses every event.
 """
@@ -626,6 +628,8 @@ class ProbedSet(set):
                 if a and isinstance(a[0], (bytes, bytearray)):
                     arg = [bytes(a[0]).hex()]
                 elif a:
+                    # (the argument may be a one-shot iterable: materialise it once, for the log and for the real call alike)
+                    a = (list(a[0]),) + tuple(a[1:])
                     arg = sorted(bytes(x).hex() for x in a[0])
                 else:
                     arg = None
@@ -721,6 +725,457 @@ def dynamic_case(report, drv, rng, allow_old, allow_new, deny_new, whitelist, ou
         report.property_failure("the refresh passes through the empty list (operations %r)" % [o[1] for o in ops], payload, None)
     report.case(("dynamic", repr(payload)), nontrivial=enforced_before, sample={"ops": [o[1] for o in ops], "final": len(final)})
     report.count("dynamic_refreshes")
+
+
+# ---- the life of ONE ListBuilder: a sequence of refreshes ---------------------------------------------
+#
+# The relay constructs one ListBuilder when it starts and that object refreshes the lists for as long as the process lives
+# (Periodic: run_once at start, then again after every check_interval).  "The dynamic lists contain exactly the p-tagged pubkeys
+# of the configured queries plus the static whitelist" is a statement about the lists at any time, hence after EVERY refresh of
+# that object and not only after the first one of a freshly built one: whatever the builder keeps between refreshes (what it
+# prepared in __init__, what a previous refresh consumed, cached, accumulated or left behind) must not show in the lists.  The
+# scenarios below therefore keep one builder and refresh it several times while the results of the configured queries change
+# between the refreshes (matches, then nothing, then others, the same again, events without p tags), with the static
+# whitelist and the service key configured or not, the deny queries configured or not.  After every refresh: both lists equal
+# the expected sets, and for every key of the universe the real is_pubkey_allowed gives the verdict of the stated rule on those
+# sets (an outsider is refused whenever the allow list is owed to be in force, a preconfigured key is admitted, a key that is no
+# longer p-tagged is dropped).  During every refresh after the first (probes before / after each set operation and at every await
+# of the query loop): if the list is in force before and after, the outsider is never admitted and a preconfigured key is never
+# refused.  Two levels: an instrumented set with canned query results (many sequences; driven by calling run_once or by the
+# builder's own Periodic task with a tiny interval, exactly as web.py starts it), and the real storage classes of both backends,
+# where the lists are replaceable events published through add_event, is_pubkey_allowed is part of the chain and the verdicts are
+# those of add_event (refused = a reason, nothing stored, nothing broadcast).
+# Number of refreshes: state that wears out shows at the second or third refresh; sequences go to 5 (thorough: 12) on general
+# grounds — long enough for "consumed once", "every other time" and "accumulates" alike, without being tuned to any of them.
+
+def _xonly(sk_hex):
+    """the x-only public key of a secret key, computed without the relay (nor the library it uses for it)"""
+    from coincurve import PrivateKey as CPrivateKey
+
+    return CPrivateKey(bytes.fromhex(sk_hex)).public_key_xonly.format().hex()
+
+
+def _owed(pk, allow, deny):
+    """the stated rule: admitted iff (no allow list in force or on it) and not on the deny list"""
+    return (not allow or pk in allow) and pk not in deny
+
+
+def _ptagged(chunks):
+    return {p for chunk in chunks for p in chunk}
+
+
+class _Once:
+    """at most one failure of each kind per sequence (one broken refresh makes every later one fail in the same way), and one
+    sequence per kind and level in the report: the report keeps 20 failing inputs for all scenarios of the property"""
+    totals = {}
+
+    def __init__(self, report, seq):
+        self.report, self.seq, self.kinds = report, seq, set()
+
+    def __call__(self, kind, what):
+        if kind in self.kinds:
+            return
+        self.kinds.add(kind)
+        self.report.count("refresh_sequence_failures")
+        n = _Once.totals[(self.seq["level"], kind)] = _Once.totals.get((self.seq["level"], kind), 0) + 1
+        if n <= 1:
+            self.report.property_failure(what, {"refresh_sequence": self.seq}, None)
+
+
+def _short(keys):
+    return sorted(k[:6] for k in keys)
+
+
+def refresh_sequence_case(report, drv, seq):
+    """instrumented level.  seq: level, driver (run_once | periodic), whitelist, service_key (secret, hex) or None, deny (are deny
+    queries configured), universe, outsider, rounds: [{allow: [[p, ...] per matching event], deny: [[...]]}]"""
+    from nostr_relay import dynamic_lists as dl
+    from nostr_relay.config import Config
+    from nostr_relay.errors import StorageError
+
+    rounds, deny_on = seq["rounds"], seq["deny"]
+    static = set(seq["whitelist"]) | ({_xonly(seq["service_key"])} if seq["service_key"] else set())
+    outsider = seq["outsider"]
+    everyone = sorted(set(seq["universe"]) | static | {outsider})
+    fail = _Once(report, seq)
+    missing = object()
+    saved = {k: vars(Config).get(k, missing) for k in ("dynamic_lists", "pubkey_whitelist", "service_privatekey")}
+    saved_dl = (dl.ALLOWED_PUBKEYS, dl.DENIED_PUBKEYS, dl.get_storage)
+    prev_loop = asyncio.get_event_loop()
+    loop = asyncio.new_event_loop()
+    asyncio.set_event_loop(loop)
+    allowed, denied = ProbedSet(), ProbedSet()
+    allowed.label, denied.label = "allow", "deny"
+    dl.ALLOWED_PUBKEYS, dl.DENIED_PUBKEYS = allowed, denied
+    state = {"k": 0, "judged": 0, "observed": [], "before": [], "E": (set(), set()), "done": None, "refreshes": 0}
+
+    def verdict(pk):
+        try:
+            dl.is_pubkey_allowed(mk_ev(pubkey=pk), Config)
+            return True
+        except StorageError:
+            return False
+
+    def probe(where):
+        state["observed"].append((where, verdict(outsider), {s: verdict(s) for s in static}, len(dl.ALLOWED_PUBKEYS)))
+
+    def expected(k):
+        r = rounds[k - 1]
+        return _ptagged(r["allow"]) | static, (_ptagged(r["deny"]) if deny_on else set())
+
+    def after_refresh(k):
+        """the oracle; k = 1 .. len(rounds)"""
+        if k <= state["judged"] or k > len(rounds):
+            return
+        state["judged"] = k
+        (p_allow, p_deny), (e_allow, e_deny) = state["E"], expected(k)
+        observed, state["observed"] = state["observed"], []
+        ops, ProbedSet.log = [o for o in ProbedSet.log if o[0] == "allow"], []
+        before = state["before"]
+        got_allow, got_deny = {x.hex() for x in dl.ALLOWED_PUBKEYS}, {x.hex() for x in dl.DENIED_PUBKEYS}
+        nth = "refresh %d of %d of one ListBuilder (%s)" % (k, len(rounds), seq["driver"])
+        if got_allow != e_allow:
+            fail("allow-list", "after %s the allow list holds %s; expected the p-tagged pubkeys of the allow queries (%d) plus the "
+                 "preconfigured keys (%d whitelisted%s): %s" % (nth, _short(got_allow), len(_ptagged(rounds[k - 1]["allow"])),
+                                                              len(seq["whitelist"]), " + the service key" if seq["service_key"] else "",
+                                                              _short(e_allow)))
+        if got_deny != e_deny:
+            fail("deny-list", "after %s the deny list holds %s; expected the p-tagged pubkeys of the deny queries: %s"
+                 % (nth, _short(got_deny), _short(e_deny)))
+        for pk in everyone:
+            v, want = verdict(pk), _owed(pk, e_allow, e_deny)
+            if v != want:
+                who = ("an outsider (on no list)" if pk == outsider else "a preconfigured key (static whitelist / service key)" if pk in static
+                       else "a key p-tagged by the allow queries" if pk in e_allow else "a key the allow queries no longer p-tag")
+                fail("verdict-" + who[:12], "after %s is_pubkey_allowed %s %s; the allow list is owed to hold %d key(s)%s, the deny list %d"
+                     % (nth, "admits" if v else "refuses", who, len(e_allow), "" if e_allow else " (not in force)", len(e_deny)))
+        if k >= 2 and p_allow and e_allow:
+            # in force before and after: no window
+            bad = [o for o in observed if o[1]]
+            if bad:
+                fail("window", "during %s an outsider was admitted at %s (allow list size %d): the list is in force before and after"
+                     % (nth, bad[0][0], bad[0][3]))
+            for s in sorted(static - p_deny - e_deny):
+                bad = [o for o in observed if not o[2][s]]
+                if bad:
+                    fail("window-static", "during %s a preconfigured key was refused at %s (allow list size %d)" % (nth, bad[0][0], bad[0][3]))
+                    break
+        # correspondence: this refresh as a sequence of atomic operations on the allow list, from the state it started in
+        model_ops = [{"op": {"clear": "clear", "update": "update", "add": "update", "intersection_update": "isect"}.get(o[1], o[1]),
+                      "s": o[2] or []} for o in ops]
+        if all(m["op"] in ("clear", "update", "isect") for m in model_ops):
+            states = drv.call({"op": "adm.observable", "cur": sorted(before), "ops": model_ops})
+            if sorted(states[-1]) != sorted(got_allow):
+                report.correspondence_break("dynamic_lists.ListBuilder.run_once (refresh %d of one builder)" % k, {"refresh_sequence": seq},
+                                            sorted(got_allow), states[-1])
+        else:
+            report.correspondence_break("dynamic_lists.ListBuilder.run_once (unexpected set operation)", {"refresh_sequence": seq}, ops, None)
+        state["E"] = (e_allow, e_deny)
+        state["before"] = sorted(got_allow)
+        report.count("refresh_sequence_refreshes")
+        report.count("refresh_sequence_allow_%s" % ("in_force" if e_allow else "not_in_force"))
+
+    class _Storage:
+        def run_single_query(self, queries):
+            if queries == ["ALLOW"]:
+                # a refresh begins (the allow queries come first); under the Periodic driver this is also the moment at which
+                # the previous refresh is known to be complete
+                after_refresh(state["k"])
+                state["k"] += 1
+                state["refreshes"] += 1
+            k = state["k"]
+            if k > len(rounds):
+                if state["done"] is not None:
+                    state["done"].set()
+                ProbedSet.probe = None
+
+                async def never():
+                    await asyncio.Event().wait()
+                    yield None
+                return never()
+            src = rounds[k - 1]["allow" if queries == ["ALLOW"] else "deny"]
+
+            async def gen():
+                for chunk in src:
+                    await asyncio.sleep(0)
+                    probe("during-query")
+                    yield FakeEvent(chunk)
+            return gen()
+
+    try:
+        dl.get_storage = lambda: _Storage()
+        Config.dynamic_lists = {"allow_list_queries": ["ALLOW"], "deny_list_queries": ["DENY"] if deny_on else [],
+                                "check_interval": 0.001 if seq["driver"] == "periodic" else 3600}
+        Config.pubkey_whitelist = list(seq["whitelist"])
+        Config.service_privatekey = seq["service_key"]
+        builder = dl.ListBuilder()
+        ProbedSet.probe, ProbedSet.log = probe, []
+
+        async def by_run_once():
+            for k in range(1, len(rounds) + 1):
+                await builder.run_once()
+                after_refresh(k)
+
+        async def by_periodic():
+            state["done"] = asyncio.Event()
+            await builder.start()
+            try:
+                # (each refresh takes a few turns of the loop and 1 ms of waiting; the limit only bounds a builder that stopped refreshing)
+                await asyncio.wait_for(state["done"].wait(), 20)
+            except asyncio.TimeoutError:
+                report.count("refresh_sequence_periodic_gave_up")
+            finally:
+                ProbedSet.probe = None
+                await builder.stop()
+
+        loop.run_until_complete(by_periodic() if seq["driver"] == "periodic" else by_run_once())
+        if state["judged"] < len(rounds):
+            fail("stopped", "the ListBuilder's periodic task completed %d refresh(es) of the %d awaited (check_interval 1 ms): the "
+                 "lists are no longer refreshed" % (state["judged"], len(rounds)))
+    finally:
+        ProbedSet.probe, ProbedSet.log = None, None
+        dl.ALLOWED_PUBKEYS, dl.DENIED_PUBKEYS, dl.get_storage = saved_dl
+        for k, v in saved.items():
+            if v is missing:
+                vars(Config).pop(k, None)
+            else:
+                setattr(Config, k, v)
+        loop.close()
+        asyncio.set_event_loop(prev_loop)
+    report.case(("refresh-sequence", repr(seq)), nontrivial=len(rounds) > 1,
+                sample={"refresh_sequence": seq["driver"], "refreshes": len(rounds), "static_keys": len(static), "deny": deny_on})
+    report.count("refresh_sequences_%s" % seq["driver"])
+
+
+REFRESH_SHAPES = [["matches", "none", "others"], ["none", "none"], ["none", "matches", "none"], ["matches", "same", "same"],
+                  ["matches", "no-p-tags", "overlap", "none", "others"], ["none", "none", "matches"]]
+
+
+def _round_results(rng, shape, universe):
+    """the results of one query over the refreshes of a sequence: per refresh a list of matching events, each a list of p-tagged keys"""
+    out, prev = [], []
+    for what in shape:
+        if what == "none":
+            cur = []
+        elif what == "no-p-tags":
+            cur = [[] for _ in range(rng.choice([1, 2]))]
+        elif what == "same":
+            cur = [list(c) for c in prev]
+        elif what == "overlap":
+            kept = [p for p in sorted(_ptagged(prev)) if rng.random() < 0.5]
+            cur = [kept + rng.sample(universe, 1)] + [rng.sample(universe, rng.choice([1, 2])) for _ in range(rng.choice([0, 1]))]
+        else:                           # matches / others
+            fresh = [p for p in universe if p not in _ptagged(prev)] or universe
+            cur = [rng.sample(fresh, min(len(fresh), rng.choice([1, 2]))) for _ in range(rng.choice([1, 1, 2, 3]))]
+        out.append(cur)
+        prev = cur
+    return out
+
+
+def refresh_sequences(report, drv, rng, tier):
+    universe = [("%02x" % i) * 32 for i in range(1, 9)]
+    static_pool = [("%02x" % i) * 32 for i in range(0xa1, 0xa4)]
+    outsider = "ee" * 32
+    service = "%064x" % 0x1234567
+
+    def one(shape, n_static, with_service, deny_on, driver):
+        allow = _round_results(rng, shape, universe)
+        deny = _round_results(rng, [rng.choice(["none", "matches", "same", "overlap"]) for _ in shape], universe[:4]) if deny_on \
+            else [[] for _ in shape]
+        seq = {"level": "instrumented", "driver": driver, "whitelist": static_pool[:n_static],
+               "service_key": service if with_service else None, "deny": deny_on, "universe": universe, "outsider": outsider,
+               "rounds": [{"allow": a, "deny": d} for a, d in zip(allow, deny)]}
+        refresh_sequence_case(report, drv, seq)
+
+    # directed: every shape under every combination of preconfigured keys, deny queries on / off
+    for shape in REFRESH_SHAPES:
+        for n_static in (0, 1, 2):
+            for with_service in (False, True):
+                one(shape, n_static, with_service, deny_on=rng.random() < 0.5, driver="run_once")
+    # the builder's own Periodic task drives the refreshes (start(), run at start, wait, run_once, ...)
+    for shape in REFRESH_SHAPES:
+        one(shape, rng.choice([0, 1, 2]), rng.random() < 0.5, deny_on=rng.random() < 0.5, driver="periodic")
+    # random sequences of 2..5 refreshes (thorough: ..12)
+    for i in range(60 if tier == "quick" else 1500):
+        n = rng.randrange(2, 6 if tier == "quick" else 13)
+        shape = [rng.choice(["matches", "none", "others", "same", "overlap", "no-p-tags"]) for _ in range(n)]
+        one(shape, rng.choice([0, 1, 1, 2, 3]), rng.random() < 0.5, deny_on=rng.random() < 0.5,
+            driver="periodic" if rng.random() < 0.15 else "run_once")
+
+
+# -- the same with the real storage: the lists are events -------------------------------------------------
+
+LIST_KIND, MUTE_KIND = 3, 10000           # both replaceable: a curator's newer list replaces the older one
+
+
+def refresh_store_case(report, seq):
+    """storage level.  seq: level, backend, whitelist, service_key or None, deny (bool), curators, people ({name: pubkey}), outsider,
+    rounds: [{publish: [signed events submitted before the refresh], probes: [signed kind-1 events submitted after it]}]"""
+    from nostr_relay import dynamic_lists as dl
+    from nostr_relay.config import Config
+    from nostr_relay.errors import StorageError
+
+    static = set(seq["whitelist"]) | ({_xonly(seq["service_key"])} if seq["service_key"] else set())
+    outsider, rounds = seq["outsider"], seq["rounds"]
+    fail = _Once(report, seq)
+    missing = object()
+    saved = {k: vars(Config).get(k, missing) for k in ("dynamic_lists", "pubkey_whitelist", "service_privatekey")}
+    saved_dl = (dl.ALLOWED_PUBKEYS, dl.DENIED_PUBKEYS, dl.get_storage)
+    prev_loop = asyncio.get_event_loop()
+    chain = [VPATH + ".is_signed", "nostr_relay.dynamic_lists.is_pubkey_allowed"]
+    st = (KVStore if seq["backend"] == "kv" else SQLStore)(validators=chain, service_key=seq["service_key"])
+    allowed, denied = ProbedSet(), ProbedSet()
+    allowed.label, denied.label = "allow", "deny"
+    observed = []
+
+    def probe(where):
+        try:
+            dl.is_pubkey_allowed(mk_ev(pubkey=outsider), Config)
+            observed.append((where, True, len(dl.ALLOWED_PUBKEYS)))
+        except StorageError:
+            observed.append((where, False, len(dl.ALLOWED_PUBKEYS)))
+
+    def submit(ev, e_allow, e_deny, when):
+        """through add_event; judged by the stated rule on the lists owed at this moment; returns whether it was owed admission"""
+        want = _owed(ev["pubkey"], e_allow, e_deny)
+        before = st.dump()
+        res = st.add(dict(ev))
+        who = ("an outsider (on no list)" if ev["pubkey"] == outsider else "a preconfigured key (static whitelist / service key)"
+               if ev["pubkey"] in static else "a key on the deny list" if ev["pubkey"] in e_deny
+               else "a key p-tagged by the allow queries" if ev["pubkey"] in e_allow else "a key the allow queries do not p-tag")
+        if want and res["exc"] is not None:
+            fail("refused-" + who[:12], "%s: %s an event (kind %d) of %s was refused: %s; the allow list is owed to hold %d key(s)%s, the deny "
+                 "list %d" % (seq["backend"], when, ev["kind"], who, res["reason"], len(e_allow), "" if e_allow else " (not in force)", len(e_deny)))
+        elif not want:
+            if res["exc"] is None:
+                fail("admitted-" + who[:12], "%s: %s an event of %s was admitted and %s; the allow list is owed to hold %d key(s), the deny list %d"
+                     % (seq["backend"], when, who, "stored" if st.get(ev["id"]) is not None else "acknowledged", len(e_allow), len(e_deny)))
+            elif res["broadcast"] or st.dump() != before or st.get(ev["id"]) is not None:
+                fail("trace", "%s: %s a refused event of %s was stored or broadcast" % (seq["backend"], when, who))
+            elif not res["reason"]:
+                fail("no-reason", "%s: %s refusal without a reason" % (seq["backend"], when))
+        report.count("refresh_sequence_submissions_%s" % seq["backend"])
+        return want
+
+    try:
+        dl.ALLOWED_PUBKEYS, dl.DENIED_PUBKEYS = allowed, denied
+        dl.get_storage = lambda: st.storage
+        curators = list(seq["curators"])
+        Config.dynamic_lists = {"check_interval": 3600, "allow_list_queries": [{"kinds": [LIST_KIND], "authors": curators}],
+                                "deny_list_queries": [{"kinds": [MUTE_KIND], "authors": curators}] if seq["deny"] else []}
+        Config.pubkey_whitelist = list(seq["whitelist"])
+        builder = dl.ListBuilder()
+        latest = {}                     # (curator, kind) -> the newest list event the relay owed admission
+        e_allow, e_deny = set(), set()
+        for k, r in enumerate(rounds, 1):
+            for ev in r["publish"]:
+                if submit(ev, e_allow, e_deny, "before refresh %d," % k) and ev["pubkey"] in curators:
+                    cur = latest.get((ev["pubkey"], ev["kind"]))
+                    if cur is None or cur["created_at"] < ev["created_at"]:
+                        latest[(ev["pubkey"], ev["kind"])] = ev
+            p_allow = e_allow
+
+            def listed(kind):
+                return {t[1] for (_, kd), ev in latest.items() if kd == kind for t in ev["tags"] if t[0] == "p"}
+
+            e_allow, e_deny = listed(LIST_KIND) | static, (listed(MUTE_KIND) if seq["deny"] else set())
+            del observed[:]
+            ProbedSet.probe = probe
+            try:
+                st.run(builder.run_once())
+            finally:
+                ProbedSet.probe = None
+            nth = "refresh %d of %d of one ListBuilder" % (k, len(rounds))
+            got_allow, got_deny = {x.hex() for x in dl.ALLOWED_PUBKEYS}, {x.hex() for x in dl.DENIED_PUBKEYS}
+            if got_allow != e_allow:
+                fail("allow-list", "%s: after %s the allow list holds %s; expected the pubkeys p-tagged by the curators' current lists (%d) "
+                     "plus the preconfigured keys (%d whitelisted%s): %s" % (
+                         seq["backend"], nth, _short(got_allow), len(listed(LIST_KIND)), len(seq["whitelist"]),
+                         " + the service key" if seq["service_key"] else "", _short(e_allow)))
+            if got_deny != e_deny:
+                fail("deny-list", "%s: after %s the deny list holds %s; expected the pubkeys p-tagged by the curators' mute lists: %s"
+                     % (seq["backend"], nth, _short(got_deny), _short(e_deny)))
+            if k >= 2 and p_allow and e_allow and any(o[1] for o in observed):
+                bad = [o for o in observed if o[1]][0]
+                fail("window", "%s: during %s an outsider was admitted at %s (allow list size %d): the list is in force before and after"
+                     % (seq["backend"], nth, bad[0], bad[2]))
+            for ev in r["probes"]:
+                submit(ev, e_allow, e_deny, "after %s" % nth)
+            report.count("refresh_sequence_refreshes")
+            report.count("refresh_sequence_allow_%s" % ("in_force" if e_allow else "not_in_force"))
+    finally:
+        ProbedSet.probe = None
+        dl.ALLOWED_PUBKEYS, dl.DENIED_PUBKEYS, dl.get_storage = saved_dl
+        st.close()
+        for k, v in saved.items():
+            if v is missing:
+                vars(Config).pop(k, None)
+            else:
+                setattr(Config, k, v)
+        asyncio.set_event_loop(prev_loop)
+    report.case(("refresh-sequence-store", seq["backend"], repr([[e["id"] for e in r["publish"] + r["probes"]] for r in rounds])),
+                nontrivial=len(rounds) > 1, sample={"refresh_sequence": "storage", "backend": seq["backend"], "refreshes": len(rounds)})
+    report.count("refresh_sequences_store_%s" % seq["backend"])
+
+
+def refresh_store_sequences(report, rng, tier):
+    from aionostr.event import Event
+    from aionostr.key import PrivateKey
+
+    sk = {name: PrivateKey(bytes([b]) * 32) for name, b in
+          (("curator1", 0x11), ("curator2", 0x12), ("friend1", 0x21), ("friend2", 0x22), ("friend3", 0x23), ("friend4", 0x24),
+           ("outsider", 0x31), ("service", 0x41))}
+    pub = {n: k.public_key.hex() for n, k in sk.items()}
+    friends = ["friend1", "friend2", "friend3", "friend4"]
+    serial = [0]
+
+    def signed(who, kind, ptags=(), content=None):
+        serial[0] += 1
+        ev = Event(pubkey=pub[who], kind=kind, created_at=NOW - 100000 + serial[0], content=content or "n%d" % serial[0],
+                   tags=[["p", pub[f]] for f in ptags] + [["t", "n%d" % serial[0]]])
+        ev.sign(sk[who].hex())
+        return ev.to_json_object()
+
+    def sequence(backend, shape, n_curators, with_service, deny_on, whitelisted=True):
+        curators = ["curator1", "curator2"][:n_curators]
+        rounds, prev = [], {}
+        for what in shape:
+            publish = []
+            for c in curators:
+                if what == "none" or (what == "same" and c in prev):
+                    continue                                         # nothing new from this curator
+                if what == "no-p-tags":
+                    lst = []
+                elif what == "overlap":
+                    lst = sorted(set(prev.get(c, [])[:1] + rng.sample(friends, 1)))
+                else:
+                    fresh = [f for f in friends if f not in prev.get(c, [])]
+                    lst = rng.sample(fresh, rng.choice([1, 2]))
+                prev[c] = lst
+                publish.append(signed(c, LIST_KIND, lst))
+                if deny_on and rng.random() < 0.5:
+                    publish.append(signed(c, MUTE_KIND, rng.sample(friends, rng.choice([0, 1]))))
+            # somebody else publishing lists of the same kinds does not count: the queries name the curators
+            if rng.random() < 0.3:
+                publish.append(signed(rng.choice(friends + ["outsider"]), LIST_KIND, ["outsider"]))
+            probes = [signed(w, 1) for w in ["outsider"] + curators + friends]
+            rng.shuffle(probes)
+            rounds.append({"publish": publish, "probes": probes})
+        # (without a static whitelist a curator can publish only while the list is not in force or while somebody's list names him:
+        # the oracle follows the stated rule for the curators' own submissions too)
+        seq = {"level": "storage", "backend": backend, "whitelist": [pub[c] for c in curators] if whitelisted else [],
+               "service_key": sk["service"].hex() if with_service else None, "deny": deny_on, "curators": [pub[c] for c in curators],
+               "people": pub, "outsider": pub["outsider"], "rounds": rounds}
+        refresh_store_case(report, seq)
+
+    for backend in ("kv", "sql"):
+        # as the relay lives: the refresh at start finds no list, the next one neither, then a contact list appears, is emptied, replaced
+        sequence(backend, ["none", "none", "matches", "no-p-tags", "others"], 1, True, False)
+        sequence(backend, ["matches", "none", "overlap"], 2, False, True)
+        for i in range(2 if tier == "quick" else 40):
+            n = rng.randrange(2, 6 if tier == "quick" else 13)
+            sequence(backend, [rng.choice(["matches", "none", "others", "same", "overlap", "no-p-tags"]) for _ in range(n)],
+                     rng.choice([1, 2]), rng.random() < 0.5, rng.random() < 0.5, whitelisted=rng.random() < 0.75)
 
 
 # ---- configuration errors --------------------------------------------------------------------------
@@ -1222,7 +1677,14 @@ def run(report, tier, seed):
         "twice, different conforming / violating events — each member owed the verdict and reason of its own payload, compared "
         "with an independent statement and with a reference store that receives the same payloads sequentially; dynamic list refreshes with an "
         "instrumented set (probe before/after every set operation and at every await of the query loop), old list empty / "
-        "non-empty, new result empty / several chunks, static whitelist on/off, deny list on/off; configuration errors: chains of "
+        "non-empty, new result empty / several chunks, static whitelist on/off, deny list on/off; sequences of 2..5 (thorough: ..12) "
+        "refreshes of ONE ListBuilder (driven by run_once and by its own Periodic task) with the query results changing between "
+        "refreshes (matches / nothing / others / the same / overlapping / events without p tags), 0..3 whitelisted keys, service key "
+        "on/off, deny queries on/off: after every refresh both lists equal the p-tagged keys plus the preconfigured ones and "
+        "is_pubkey_allowed gives every key of the universe the verdict of the stated rule, during every later refresh an outsider "
+        "is never admitted and a preconfigured key never refused; the same through the real storage of both backends (curators' "
+        "replaceable list / mute-list events published through add_event, is_pubkey_allowed in the chain, outsider / curators / "
+        "friends submitting after every refresh: refused = reason, nothing stored, nothing broadcast); configuration errors: chains of "
         "real validators with one entry replaced by an entry that names no validator — every typing slip of each component of the "
         "module path and of the function name, structural variants, scratch modules / packages whose import raises (missing "
         "dependency, ImportError of a name, RuntimeError, OSError, ZeroDivisionError, SyntaxError) and nostr_relay.verification "
@@ -1254,6 +1716,8 @@ def run(report, tier, seed):
             wl = [] if rng.random() < 0.5 else [keys[7]]
             outsider = "ee" * 32
             dynamic_case(report, drv, rng, old, new, deny, wl, outsider)
+        refresh_sequences(report, drv, rng, tier)
+        refresh_store_sequences(report, rng, tier)
         misconfigured_cases(report, rng, tier)
     finally:
         drv.close()
@@ -1272,6 +1736,13 @@ def replay(report, path):
             r = it.get("replay") or it.get("input")
             if "allow_old" in r:
                 dynamic_case(report, drv, rng, r["allow_old"], r["allow_new"], r["deny_new"], r["whitelist"], r["outsider"])
+            elif "refresh_sequence" in r:
+                seq = r["refresh_sequence"]
+                if seq["level"] == "instrumented":
+                    refresh_sequence_case(report, drv, seq)
+                else:
+                    refresh_store_case(report, seq)
+                asyncio.set_event_loop(loop)
             elif "misconfigured" in r:
                 case = r["misconfigured"]
                 with scratch_site():
